@@ -99,6 +99,8 @@ def snap_mesh(m):
         "face_normals": np.array(m.face_normals),
         "edges_unique": np.array(m.edges_unique),
         "center_mass": np.array(m.center_mass),
+        # spatial indexes answer from their own copy of the coordinates
+        "kdtree_data": np.array(m.kdtree.data),
     }
     if isinstance(m, primitives.Primitive):
         p = m.primitive
@@ -125,6 +127,7 @@ def snap_path(p):
         "length": float(p.length),
         "bounds": np.array(p.bounds),
         "n_paths": len(p.paths),
+        "kdtree_data": np.array(p.kdtree.data),
     }
     if p.vertices.shape[1] == 2:
         d["area"] = float(p.area)
@@ -227,7 +230,11 @@ def build(spec):
             _ = m.visual.vertex_colors
             m.visual.face_colors[0] = [0, 255, 0, 255]
         elif vis == "pbr":
-            kw = spec.get("pbr") or {"metallicFactor": 0.3, "roughnessFactor": 0.6}
+            kw = dict(spec.get("pbr") or {"metallicFactor": 0.3, "roughnessFactor": 0.6})
+            if spec.get("pbr_image"):
+                from PIL import Image
+
+                kw["baseColorTexture"] = Image.fromarray(rs.randint(0, 255, (2, 2, 3)).astype(np.uint8))
             mat = trimesh.visual.material.PBRMaterial(baseColorFactor=[100, 150, 200, 255], **kw)
             m.visual = trimesh.visual.TextureVisuals(uv=rs.rand(nv, 2), material=mat)
         m.face_attributes["tag"] = np.arange(nf) * 10
@@ -288,7 +295,7 @@ def build(spec):
         if spec.get("vattr"):
             p.vertex_attributes["w"] = np.arange(len(V)) * 1.5
         if spec.get("warm"):
-            _ = p.paths, p.discrete, p.length, p.bounds
+            _ = p.paths, p.discrete, p.length, p.bounds, p.kdtree
             if dim == 2:
                 _ = p.polygons_closed, p.polygons_full, p.area
         return p
@@ -382,6 +389,11 @@ def edits_for(o):
             E += [("vertex_colors[0]=", lambda m: m.visual.vertex_colors.__setitem__(0, [1, 2, 3, 4])), ("vertex_colors=", lambda m: setattr(m.visual, "vertex_colors", [9, 9, 9, 255]))]
         if o.visual.kind == "texture":
             E += [("uv[0]=", lambda m: m.visual.uv.__setitem__(0, [0.5, 0.25]))]
+            if getattr(o.visual.material, "image", None) is not None:
+                # PIL images are mutable objects: an in-place edit of the pixels
+                E += [("material.image.putpixel", lambda m: m.visual.material.image.putpixel((0, 0), (1, 2, 3)))]
+            elif getattr(o.visual.material, "baseColorTexture", None) is not None:
+                E += [("material.baseColorTexture.putpixel", lambda m: m.visual.material.baseColorTexture.putpixel((0, 0), (1, 2, 3)))]
             if hasattr(o.visual.material, "diffuse"):
                 E += [("material.diffuse=", lambda m: setattr(m.visual.material, "diffuse", [1, 2, 3, 255]))]
             if hasattr(o.visual.material, "baseColorFactor"):
@@ -578,8 +590,8 @@ def b_copy(case, ctx):
                     f"C17|shared_state|{kind}|edit={name}|seen_in={d[0].split('.')[0]}|how={'copy' if how.startswith('copy') and how != 'copy.copy' else how}",
                     f"{how}, edited the {case['edit']} with {names}: the other object changed at {d[:6]}",
                 )
-        ctx.note(nontrivial=nontrivial, cls=[f"kind:{kind}", f"how:{how}", f"edit_side:{case['edit']}"] + (["voxel:padded_shape"] if case["spec"].get("pad") else []) + (["primitive:fine_polygon"] if case["spec"].get("fine_polygon") and case["spec"].get("prim") == "Extrusion" else []) + [f"edit:{n}" for n in names if n.startswith("primitive.") and ("*=" in n or "+=" in n)]
-                 + (["visual:pbr_zero_factor", "voxel:padded_shape", "primitive:fine_polygon"] if (case["spec"].get("pbr") or {}).get("metallicFactor") == 0.0 else []))
+        ctx.note(nontrivial=nontrivial, cls=[f"kind:{kind}", f"how:{how}", f"edit_side:{case['edit']}"] + [f"edit:{n}" for n in names if "putpixel" in n] + (["voxel:padded_shape"] if case["spec"].get("pad") else []) + (["primitive:fine_polygon"] if case["spec"].get("fine_polygon") and case["spec"].get("prim") == "Extrusion" else []) + [f"edit:{n}" for n in names if n.startswith("primitive.") and ("*=" in n or "+=" in n)]
+                 + (["visual:pbr_zero_factor", "voxel:padded_shape", "primitive:fine_polygon", "edit:material.image.putpixel"] if (case["spec"].get("pbr") or {}).get("metallicFactor") == 0.0 else []))
 
 
 # ----------------------------------------------------------------------------------- strategies
@@ -593,6 +605,7 @@ def spec(draw):
         s["mesh"] = draw(gmesh.mesh_spec(kinds=["tetra", "box", "octa", "prism"], max_parts=1, jitter=True))
         s["visual"] = draw(st.sampled_from([None, "face", "vertex", "texture", "pbr", "default_inplace", "default_inplace_face"]))
         s["density"] = draw(st.booleans())
+        s["pbr_image"] = draw(st.booleans())
         if s["visual"] == "pbr":
             # exact zeros, False and empty values are legitimate parameter values
             s["pbr"] = {
@@ -688,4 +701,4 @@ def s_hist(ctx):
     ctx.given("C17.copy", copy_case(), n={"quick": 1200, "thorough": 30000})
 
 
-REQUIRED_CLASSES["C17"] = ["kind:mesh", "kind:primitive:Cylinder", "kind:path", "kind:scene", "kind:voxel", "kind:points", "how:deepcopy", "how:copy.copy", "edit_side:original", "edit:primitive.extents*=", "edit:primitive.transform[0,3]+=", "visual:pbr_zero_factor", "voxel:padded_shape", "primitive:fine_polygon"]
+REQUIRED_CLASSES["C17"] = ["kind:mesh", "kind:primitive:Cylinder", "kind:path", "kind:scene", "kind:voxel", "kind:points", "how:deepcopy", "how:copy.copy", "edit_side:original", "edit:primitive.extents*=", "edit:primitive.transform[0,3]+=", "visual:pbr_zero_factor", "voxel:padded_shape", "primitive:fine_polygon", "edit:material.image.putpixel"]
